@@ -47,6 +47,7 @@ type C08Case struct {
 	Rollback bool   `json:"rollback,omitempty"` // an earlier, HIGHER block history (another fork) is delivered first: the view moves backwards
 	Restage  int    `json:"restage,omitempty"`  // the first k logs are staged at block 1000, and staged again at block 1001 four minutes later (twin: only the later)
 	Quick    bool   `json:"quick,omitempty"`    // observe 1.5 s after feeding the providers: each flow has ticked exactly once, nothing has viewed the proposals yet
+	HistGrow int    `json:"hist_grow,omitempty"` // after a first observation the block history grows to this length (a restarted block source catches up) and late recovery proposals arrive; the observation of the NEXT round (same ordering seed) is the one judged
 	Second   bool   `json:"second,omitempty"`   // the log proposals surfaced by the previous outcome are proposed again afterwards; a SECOND observation is the one judged
 	AccLower bool   `json:"acc_lower,omitempty"` // in-flight reports for proposals carry a LOWER check block than the stored proposal
 	AgedAgain bool  `json:"aged_again,omitempty"` // the expired proposals are made again after the observation that purged them; the NEXT observation is judged
@@ -362,6 +363,31 @@ func runC08(t *testing.T, c *C08Case) {
 			return
 		}
 	}
+	if c.HistGrow > 0 && !c.Second {
+		var grown common.BlockHistory
+		for i := 0; i < c.HistGrow; i++ {
+			grown = append(grown, common.BlockKey{Number: common.BlockNumber(5000 + 3 - i), Hash: Hash32("h", 5000+3-i)})
+		}
+		a.Blocks.Publish(grown)
+		b.Blocks.Publish(grown)
+		hist = grown
+		var late []common.UpkeepPayload
+		for i := 0; i < 5; i++ {
+			late = append(late, logPayload(200000+i, 900))
+		}
+		a.Recov.Push(late...)
+		time.Sleep(1500 * time.Millisecond)
+		synctest.Wait()
+		logView = append(logView, late...)
+		seq++
+		outctx = ocr3types.OutcomeContext{SeqNr: seq}
+		obA, errA = a.Plugin.Observation(context.Background(), outctx, nil)
+		obB, errB = b.Plugin.Observation(context.Background(), outctx, nil)
+		if errA != nil || errB != nil {
+			c.Err = fmt.Sprint(errA, errB)
+			return
+		}
+	}
 	if c.AgedAgain && c.Aged > 0 && !c.Second {
 		// the proposals that had expired (and were purged by the views of the observation just built) are made again:
 		// each is pending once, whatever the store did with the old key
@@ -528,6 +554,8 @@ func boundary() []C08Case {
 	add(C08Case{Family: "accepted-again-on-a-higher-block-within-the-lockout", Seq: 23, Digest: 2, Staged: 120, PDMode: 2, EarlyTwice: 30, InFlight: 4, HistLen: 20})
 	add(C08Case{Family: "all-max-size-over-byte-limit", Seq: 21, Digest: 1, Staged: 150, PDMode: 1, HistLen: 256, LogProps: 6, CondUpk: 8})
 	add(C08Case{Family: "all-9999-over-byte-limit", Seq: 29, Digest: 1, Staged: 100, PDMode: 3, HistLen: 256})
+	add(C08Case{Family: "byte-limit-cut-then-the-rest-of-the-observation-grows", Seq: 61, Digest: 1, Staged: 150, PDMode: 1, HistLen: 16, HistGrow: 256})
+	add(C08Case{Family: "byte-limit-cut-then-the-rest-of-the-observation-grows", Seq: 71, Digest: 2, Staged: 100, PDMode: 3, HistLen: 3, HistGrow: 300, CondUpk: 6})
 	add(C08Case{Family: "mixed-sizes-at-limit", Seq: 30, Digest: 2, Staged: 400, PDMode: 0, InFlight: 20, HistLen: 256, LogProps: 8, CondUpk: 12, PropsFly: 4})
 	add(C08Case{Family: "seq-crossing-10", Seq: 39, Digest: 1, Staged: 120, PDMode: 2, HistLen: 5})
 	add(C08Case{Family: "seq-crossing-10", Seq: 40, Digest: 1, Staged: 120, PDMode: 2, HistLen: 5})
